@@ -51,8 +51,14 @@ RULES = {
     "test than `is not None`; a filter such as `isinstance(error, Exception)` drops a cancellation (CancelledError, KeyboardInterrupt …) "
     "raised by a callback or a tensor inside a worker: the parallel writer then returns normally and the half-written temporary file is "
     "renamed over the destination - neither the previous bytes nor the complete new ones",
+    "R13": "no handler of the write path swallows what a tensor raised: in the external-data module, a `try` whose body asks a tensor for "
+    "its bytes (`.tofile(…)`, `.tobytes()`, `.numpy()`, `__array__`) has no handler that ends without re-raising - `try: tensor.tofile(file) "
+    "except AttributeError: file.write(tensor.tobytes())` also catches an AttributeError raised *inside* a tensor's tofile() after part of "
+    "its bytes were written: the save carries on, writes the whole tensor after the partial bytes and renames a file that is neither "
+    "the previous one nor the complete new one over the destination, and no exception reaches the caller (whether a tensor has a method "
+    "is asked with hasattr, before the call)",
 }
-FLOORS = {"R1": 5, "R2": 2, "R3": 4, "R4": 3, "R5": 1, "R6": 1, "R7": 1, "R8": 12, "R9": 1, "R10": 1, "R11": 1, "R12": 2}
+FLOORS = {"R1": 5, "R2": 2, "R3": 4, "R4": 3, "R5": 1, "R6": 1, "R7": 1, "R8": 12, "R9": 1, "R10": 1, "R11": 1, "R12": 2, "R13": 1}
 EXPLANATION = (
     "Path-taint analysis (temp-derived vs destination-derived) over every file-system call of the single-file "
     "writer, dominator queries for the write → replace → invalidate ordering, try/finally structure of the "
@@ -758,7 +764,32 @@ def rule_r12(ctx):
     ctx.require(n >= 2, f"only {n} functions that submit work to an executor found in the writers")
 
 
+def rule_r13(ctx):
+    m = ctx.repo.module(ED)
+    n = 0
+    for f in ctx.repo.live(m.all_funcs):
+        if isinstance(f.node, ast.Lambda):
+            continue
+        for t in (x for x in own_nodes(f.node) if isinstance(x, ast.Try)):
+            n += 1
+            asks = next((c for st in t.body for c in ast.walk(st) if isinstance(c, ast.Call) and isinstance(c.func, ast.Attribute)
+                         and c.func.attr in ("tofile", "tobytes", "numpy", "__array__")), None)
+            if asks is None:
+                continue
+            for h in t.handlers:
+                reraises = bool(h.body) and isinstance(h.body[-1], ast.Raise)
+                ctx.check("R13", f"{f.local}: the handler `except {norm(h.type) if h.type is not None else ''}` around `{norm(asks)[:40]}` re-raises", reraises, f, h,
+                          f"`except {norm(h.type) if h.type is not None else ''}:` around `{norm(asks)[:50]}` ends without raising: an exception of that class that comes from inside the tensor "
+                          "(after it has written part of its bytes) is taken for something else and the save carries on - the destination is replaced by a file that mixes partial and "
+                          "complete tensor bytes, and the caller is told nothing",
+                          how="try statements of the external-data module whose body calls tofile / tobytes / numpy on a tensor × handlers that do not end in `raise`",
+                          construct=f"tensor exception swallowed by except {norm(h.type) if h.type is not None else ''}")
+    ctx.ob("R13", f"{n} try statements of the external-data module examined", True, how="handlers around tensor byte producers")
+    ctx.require(n >= 3, f"only {n} try statements found in the external-data module")
+
+
 def run(ctx):
+    rule_r13(ctx)
     rule_r12(ctx)
     rule_r11(ctx)
     rule_r10(ctx)
